@@ -249,6 +249,7 @@ PROPS = {
             plain("c06", "TestReplayNesting"),
             rapid("c06", "TestPropInput", quick=(2500, 5), thorough=(40000, 12)),
             rapid("c06", "TestPropDisconnect", quick=(3, 6), thorough=(40, 14)),
+            rapid("c06", "TestPropOversize", quick=(400, 4), thorough=(6000, 8)),
         ],
     },
     "C17": {
